@@ -240,10 +240,13 @@ def RowMatches (tol : Rat) (cols : List Col) (n : Option Nat) (j : JobRec) (row 
 /-- **the C04 specification of a results file** (`hdr` = header names, `rows` = its lines,
 `jobs` = the finished evaluations, `n` = the arity): the header names are those of the columns
 `cols`; `job_id`, `job_status`, every configuration key and exactly the objective columns of the
-arity are present; there are as many lines as jobs, job ids are unique, and each job has exactly
+arity, and the metadata keys of the first non-failed job are present; there are as many lines as jobs, job ids are unique, and each job has exactly
 one line carrying its id, which shows the job's own value in every column. -/
 def TableSpec (tol : Rat) (cols : List Col) (hdr : List String) (rows : List (List CellIn))
-    (jobs : List JobRec) (n : Option Nat) : Prop :=
+    (jobs : List JobRec) (n : Option Nat) (needMeta : Bool := true) : Prop :=
+  -- the metadata keys known when the header was written — those of the first non-failed job
+  -- (`jobs` in finishing order) — are columns
+  (needMeta = true → ∀ hj, firstSuccess jobs = some hj → ∀ kv ∈ visibleMeta hj.md, Col.mdata kv.1 ∈ cols) ∧
   cols.map Col.name = hdr ∧ Col.jobId ∈ cols ∧ Col.jobStatus ∈ cols ∧
   cols.filter isObjCol = objColsOf n ∧
   (∀ j ∈ jobs, ∀ kv ∈ j.args, Col.param kv.1 ∈ cols) ∧
@@ -254,13 +257,23 @@ def TableSpec (tol : Rat) (cols : List Col) (hdr : List String) (rows : List (Li
 /-- **C04 (verified checker).**  The executable checker the harness runs on the real file content
 decides exactly the specification. -/
 theorem C04_checker (tol : Rat) (cols : List Col) (hdr : List String) (rows : List (List CellIn))
-    (jobs : List JobRec) (n : Option Nat) :
-    checkTable tol cols hdr rows jobs n = true ↔ TableSpec tol cols hdr rows jobs n := by
+    (jobs : List JobRec) (n : Option Nat) (needMeta : Bool) :
+    checkTable tol cols hdr rows jobs n needMeta = true ↔ TableSpec tol cols hdr rows jobs n needMeta := by
+  have hmeta : (!needMeta || headerMetaOK cols jobs) = true ↔
+      (needMeta = true → ∀ hj, firstSuccess jobs = some hj →
+        ∀ kv ∈ visibleMeta hj.md, Col.mdata kv.1 ∈ cols) := by
+    cases needMeta with
+    | false => simp
+    | true =>
+      simp only [Bool.not_true, Bool.false_or, headerMetaOK, forall_const]
+      cases firstSuccess jobs with
+      | none => simp
+      | some hj => simp [List.all_eq_true, List.contains_iff_mem]
   simp only [checkTable, TableSpec, RowMatches, rowMatches, Bool.and_eq_true, decide_eq_true_eq,
-    List.all_eq_true, List.contains_iff_mem, beq_iff_eq, Bool.or_eq_true, Bool.not_eq_true']
+    List.all_eq_true, List.contains_iff_mem, beq_iff_eq, Bool.or_eq_true, Bool.not_eq_true', hmeta]
   constructor
-  · rintro ⟨⟨⟨⟨⟨⟨⟨h1, h2⟩, h3⟩, h4⟩, h5⟩, h6⟩, h7⟩, h8⟩
-    refine ⟨h1, h2, h3, h4, h5, h6, h7, ?_⟩
+  · rintro ⟨⟨⟨⟨⟨⟨⟨⟨h0, h1⟩, h2⟩, h3⟩, h4⟩, h5⟩, h6⟩, h7⟩, h8⟩
+    refine ⟨h0, h1, h2, h3, h4, h5, h6, h7, ?_⟩
     intro j hj
     obtain ⟨ha, hb⟩ := h8 j hj
     refine ⟨ha, ?_⟩
@@ -268,8 +281,8 @@ theorem C04_checker (tol : Rat) (cols : List Col) (hdr : List String) (rows : Li
     rcases hb r hr with hf | hm
     · rw [hid] at hf; cases hf
     · exact hm
-  · rintro ⟨h1, h2, h3, h4, h5, h6, h7, h8⟩
-    refine ⟨⟨⟨⟨⟨⟨⟨h1, h2⟩, h3⟩, h4⟩, h5⟩, h6⟩, h7⟩, ?_⟩
+  · rintro ⟨h0, h1, h2, h3, h4, h5, h6, h7, h8⟩
+    refine ⟨⟨⟨⟨⟨⟨⟨⟨h0, h1⟩, h2⟩, h3⟩, h4⟩, h5⟩, h6⟩, h7⟩, ?_⟩
     intro j hj
     obtain ⟨ha, hb⟩ := h8 j hj
     refine ⟨ha, ?_⟩
